@@ -147,18 +147,24 @@ claim(
 
 claim(
     "C09",
-    "Bounded model checking (Kani/CBMC) of the address-matching predicate every turmoil::net receive path (UDP receive filter, TCP "
-    "listener match) relies on: for ALL IPv4 (bind, destination) socket-address pairs and for IPv6 pairs `matches` is true exactly "
-    "for a wildcard bind on the same port or an identical address, and a v4 wildcard accepts any destination on its port.",
-    "NARROW CLAIM: only the match predicate. The receive filter with the connected-peer check and the bounded queue, routing by "
-    "destination class, broadcast fan-out, multicast membership (symbolic group/member keys exceeded the 8 GB cap) and recv_from "
-    "truncation need World/Topology (tokio runtime) or exceed the cap, and are outside this check.",
-    ["host::matches"],
-    "Bounds: all 2^96 v4 pairs; v6 pairs with the destination equal to the bind address or ::1, all ports; unwind 6-18.",
-    "UdpSocket::send routing, broadcast, multicast membership, loopback tasks, capacity overflow, origin address, truncation",
-    COMMON_ASSUME,
+    "Bounded model checking (Kani/CBMC) of the receiving half of turmoil::net UDP (tokio MODEL channel): (1) the address-matching "
+    "predicate `matches` for ALL IPv4 (bind, destination) pairs and for IPv6 pairs; (2) the receive filter "
+    "Udp::receive_from_network through the real Udp::bind / Udp::connect: for a symbolic destination address, symbolic source socket, "
+    "symbolic connected peer and symbolic payload a datagram is queued iff its destination port is the bound port, the bind address "
+    "is the wildcard or equals the destination, the socket is unconnected or its peer IS the source socket (address and port), and the "
+    "queue has room; a queued datagram carries the payload unaltered and the true origin, everything else leaves earlier datagrams "
+    "untouched, and each send yields at most one receive; (3) UdpSocket::try_recv_from (also after `readable` parked the datagram) "
+    "returns min(len, buffer) bytes, exactly the datagram's prefix, writes nothing beyond it, consumes the datagram once and leaves "
+    "the next one whole.",
+    "Sender-side routing (UdpSocket::send: loopback, broadcast fan-out, multicast membership) needs World/Topology and is not "
+    "executed; multicast membership tables with symbolic group/member keys exceeded the 8 GB cap.",
+    ["host::matches", "host::Udp::{new, bind, connect, receive_from_network}", "net::udp::UdpSocket::{new, try_recv_from}",
+     "net::udp::Rx::try_recv_from"],
+    "Bounds: one bound socket (3 bind-address shapes), capacity 1-2 with 0-1 queued datagrams, 2-3 byte payloads, receive buffers of "
+    "0/2/3/4 bytes (concrete per instance); addresses, ports of source/peer, contents symbolic; unwind 6-18.",
+    "UdpSocket::send routing, broadcast, multicast membership, loopback tasks, async recv_from/readable under an executor",
+    CORE_ASSUME,
 )
-
 
 claim(
     "C03",
